@@ -6,7 +6,7 @@ import libgen
 ID = 'C08'
 GEN_MODULES = ['Tables', 'Ident', 'Classes']
 MODEL_TARGETS = ['coq/C08/Run.vo']
-PROOF_TARGETS = ['coq/C08/Proofs.vo']
+PROOF_TARGETS = ['coq/C08/Proofs.vo', 'coq/Bridge/Proofs.vo']
 PROPS_FILE = 'coq/Props/C08.v'
 RUN_MODULE = 'QCE.C08.Run'
 COQ_HEADER = ('From Gen Require Import Ident Classes Tables.\nFrom QCE Require Import Core.Model Core.Run Lib.Run.\n'
